@@ -12,6 +12,8 @@
 #include <string>
 #include <vector>
 #include <unistd.h>
+#include <csetjmp>
+#include <csignal>
 
 #include <verilated.h>
 #include <verilated_sym_props.h>
@@ -25,6 +27,14 @@
 #include "prng.hpp"
 
 double sc_time_stamp() { return 0; }
+
+static sigjmp_buf g_jmp;
+static volatile sig_atomic_t g_armed = 0;
+static void onFault(int sig) {
+  if (g_armed) siglongjmp(g_jmp, sig);
+  signal(sig, SIG_DFL);
+  raise(sig);
+}
 
 using refisa::MEM_WORDS;
 static const uint32_t RTL_WORDS = 1u << 19;
@@ -364,7 +374,22 @@ struct Co {
       mismatch("store request", d.done()); ok = false;
     }
     rtl.clock();
-    try { sim.p->run(); } catch (std::exception &e) { vio::Json d; d.str("what", e.what()); mismatch("simulator exception", d.done()); return false; }
+    g_armed = 1;
+    int sig = sigsetjmp(g_jmp, 1);
+    if (sig == 0) {
+      try { sim.p->run(); } catch (std::exception &e) { g_armed = 0; vio::Json d; d.str("what", e.what()); mismatch("simulator exception", d.done()); return false; }
+      g_armed = 0;
+    } else {
+      g_armed = 0;
+      vio::Json d; d.raw("before", regsJson(before)).unum("inst", pre.inst).num("signal", sig);
+      mismatch("simulator fault", d.done());
+      ref.step();
+      (void)sim.p.release();
+      sim.p.reset(new hexsim::Processor(sim.in, sim.out));
+      std::memcpy(sim.p->verifMemory(), ref.mem.data(), sizeof(uint32_t) * MEM_WORDS);
+      sim.p->verifObserver = [](hexsim::Processor &) { return false; };
+      return false;
+    }
     ref.step();
     st.cycles++;
     if (isSvc && before.a == 2) {
@@ -594,6 +619,8 @@ static int c03Main(int argc, char **argv) {
 }
 
 int main(int argc, char **argv) {
+  signal(SIGSEGV, onFault);
+  signal(SIGBUS, onFault);
   if (argc >= 2 && !strcmp(argv[1], "c16")) return c16Main(argc, argv);
   if (argc >= 2 && !strcmp(argv[1], "c03")) return c03Main(argc, argv);
   fprintf(stderr, "usage: h_rtl c16|c03 ...\n");
